@@ -19,6 +19,13 @@ The model follows the code, including:
 * `Fanout`            every recorder in order; handles are vectors of handles; `record_many` is NOT
                       overridden by `FanoutHistogram`, so the trait default turns it into `count` × `record`
                       on every inner handle.
+* layer values     `PrefixLayer::new` keeps the prefix as given; `FilterLayer` is a mutable builder
+                      (`FilterCfg`: `default()` / `from_patterns`, then `add_pattern` = push, `case_insensitive` /
+                      `use_dfa` = assignment) and `.layer(&self, inner)` builds a fresh automaton from the fields as
+                      they are at that moment, so one value can be applied, changed and applied again
+                      (`FilterCfg.reuse`);
+* handles           `Fanout*` handles hold nothing but their vector of handles: a sequence of calls is the
+                      concatenation of the single calls (`Handle.applySeq`).
 Strings are `List Char`; prefix / substring on code points coincides with prefix / substring on the UTF-8
 bytes the Rust code works on (UTF-8 is self-synchronising and patterns / routes are whole strings).
 `add_route` panics for a mask that is neither a single kind nor ALL; `Mask` has exactly those four values.
@@ -229,6 +236,66 @@ def handleNth : List Rec → Nat → Op → Handle
   | _ :: rs, i + 1, op => handleNth rs i op
 end
 
+/-! ### filter.rs / prefix.rs: the layer VALUES (`FilterLayer` is a mutable builder, `PrefixLayer` is immutable) -/
+
+/-- the fields of `FilterLayer` -/
+structure FilterCfg where
+  patterns : List Str
+  ci : Bool
+  dfa : Bool
+  deriving DecidableEq, Repr, Inhabited
+
+/-- `FilterLayer::default()` (`#[derive(Default)]`: no patterns, case-sensitive, `use_dfa = false`) -/
+def FilterCfg.dflt : FilterCfg := { patterns := [], ci := false, dfa := false }
+
+/-- `FilterLayer::from_patterns`: the patterns as given, case-sensitive, `use_dfa = true` -/
+def FilterCfg.fromPatterns (ps : List Str) : FilterCfg := { patterns := ps, ci := false, dfa := true }
+
+/-- one call of a `&mut self` method of `FilterLayer` -/
+inductive FOp
+  | add (p : Str)
+  | ci (b : Bool)
+  | dfa (b : Bool)
+  deriving DecidableEq, Repr, Inhabited
+
+/-- `FilterLayer::add_pattern` (push, whatever the pattern: duplicates, case variants and the empty pattern are
+    all kept), `FilterLayer::case_insensitive`, `FilterLayer::use_dfa` (plain assignments) -/
+def FilterCfg.step (c : FilterCfg) : FOp → FilterCfg
+  | .add p => { c with patterns := c.patterns ++ [p] }
+  | .ci b => { c with ci := b }
+  | .dfa b => { c with dfa := b }
+
+/-- a chain of builder calls -/
+def FilterCfg.run (c : FilterCfg) (ops : List FOp) : FilterCfg := ops.foldl FilterCfg.step c
+
+/-- `<FilterLayer as Layer<R>>::layer(&self, inner)`: a fresh automaton from the CURRENT fields; `use_dfa` only
+    selects the automaton implementation -/
+def FilterCfg.layer (c : FilterCfg) (inner : Rec) : Rec := .filter c.patterns c.ci inner
+
+/-- `PrefixLayer::new(prefix)` followed by `<PrefixLayer as Layer<R>>::layer(&self, inner)`: the prefix is kept
+    exactly as given (no trimming of dots or blanks) -/
+def prefixLayer (p : Str) (inner : Rec) : Rec := .pfx p inner
+
+/-- a step in the life of ONE `FilterLayer` value: a builder call, or `.layer(inner)` (which takes `&self`, so
+    the value lives on and can be changed and applied again) -/
+inductive LStep
+  | cfg (o : FOp)
+  | layer (inner : Rec)
+  deriving Repr, Inhabited
+
+/-- the recorders produced, in order, by the `.layer(…)` calls among `steps` on one `FilterLayer` value that
+    starts as `c` -/
+def FilterCfg.reuse (c : FilterCfg) : List LStep → List Rec
+  | [] => []
+  | .cfg o :: rest => (c.step o).reuse rest
+  | .layer inner :: rest => c.layer inner :: c.reuse rest
+
+/-- the builder calls among the steps -/
+def cfgOps : List LStep → List FOp
+  | [] => []
+  | .cfg o :: rest => o :: cfgOps rest
+  | .layer _ :: rest => cfgOps rest
+
 /-! ### mod.rs: `Layer`, `Stack` -/
 
 /-- the two `Layer` implementations -/
@@ -285,6 +352,11 @@ def applyAll : List Handle → Upd → List ((Nat × Op) × Upd)
   | [], _ => []
   | h :: hs, u => h.apply u ++ applyAll hs u
 end
+
+/-- a sequence of calls on ONE handle (or on clones of it: `Counter` / `Gauge` / `Histogram` are `Arc`s): what
+    is received is the concatenation of what each call causes — the `Fanout*` handles keep no state between
+    calls -/
+def Handle.applySeq (h : Handle) (us : List Upd) : List ((Nat × Op) × Upd) := us.flatMap h.apply
 
 /-! ### what an update amounts to (used to compare receptions: the property counts samples, not calls) -/
 
